@@ -163,7 +163,7 @@ def run(ctx: Ctx):
             if ih < ick:
                 # history first: needs a collision guard taken True on this path
                 hist_ev = [e for e in p.events if e.label == "HIST"][0]
-                g = _collision_guard(hist_ev.node, pm, rd, prov)
+                g = _collision_guard(hist_ev.node, pm, rd, prov, p)
                 taken = any(isinstance(d, Decision) and d.taken and g is not None and d.test == g[1]
                             for d in p.decisions)
                 if g is None or not taken:
@@ -225,19 +225,37 @@ def run(ctx: Ctx):
     )
 
 
-def _collision_guard(hist_call: ast.Call, pm, rd: ReachingDefs, prov: Prov):
+def _collision_guard(hist_call: ast.Call, pm, rd: ReachingDefs, prov: Prov, path=None):
     """The innermost guard of the history-first call: returns (kind, test text) when the guard
-    is a name whose definition data-depends on both new checkpoint paths."""
+    is a name whose definition data-depends on both new checkpoint paths. When the flag has several definitions (the common
+    save block hoisted out of the branches), the one on the given path is judged: the definition all of whose enclosing
+    branch decisions were taken by the path."""
     gs = guards_of(pm, hist_call)
     if not gs:
         return None
     test, pol = gs[-1]
     if not pol or not isinstance(test, ast.Name):
         return None
-    defs = rd.defs_of(test)
+    defs = list(rd.defs_of(test))
+    if len(defs) > 1 and path is not None:
+        taken = {(d_.test, d_.taken) for d_ in path.decisions}
+        tests = {d_.test for d_ in path.decisions}
+        on_path = []
+        for d_ in defs:
+            st_ = getattr(d_, "stmt", None)
+            if st_ is None:
+                continue
+            if isinstance(d_.value, ast.Constant) and not d_.value.value:
+                continue  # `flag = False` cannot be the definition under which the flag was found true
+            g_ = guards_of(pm, st_, early_exits=False)
+            # (a branch without effect events is not a recorded decision of the path: it does not contradict)
+            if all((u(t_), pol_) in taken for t_, pol_ in g_ if u(t_) in tests):
+                on_path.append(d_)
+        # the last one in program order wins (a later definition on the same path overwrites an earlier one)
+        defs = sorted(on_path, key=lambda d_: d_.line)[-1:] if on_path else defs
     if len(defs) != 1:
         return None
-    d = next(iter(defs))
+    d = defs[0]
     v = d.value
     if v is None or isinstance(v, ast.Constant):
         return None
@@ -257,7 +275,15 @@ def _collision_guard(hist_call: ast.Call, pm, rd: ReachingDefs, prov: Prov):
                 news.add(k[0])
     if news != {"model", "optim"}:
         return None
+    while isinstance(v, ast.Call) and call_name(v) == "bool" and len(v.args) == 1:
+        v = v.args[0]
     if isinstance(v, ast.BinOp) and isinstance(v.op, ast.BitAnd):
+        return ("intersection", u(test))
+    # `not A.isdisjoint(B)` / `A.intersection(B)`: the same non-empty-intersection test
+    if isinstance(v, ast.UnaryOp) and isinstance(v.op, ast.Not) and isinstance(v.operand, ast.Call) and isinstance(v.operand.func, ast.Attribute) \
+            and v.operand.func.attr == "isdisjoint" and len(v.operand.args) == 1:
+        return ("intersection", u(test))
+    if isinstance(v, ast.Call) and isinstance(v.func, ast.Attribute) and v.func.attr == "intersection" and len(v.args) == 1:
         return ("intersection", u(test))
     if all(isinstance(c, ast.Call) and call_name(c) == "os.path.exists"
            for c in (v.values if isinstance(v, ast.BoolOp) and isinstance(v.op, ast.Or) else [None])):
@@ -319,6 +345,11 @@ def _o4(ctx, upd, rd, prov, pm, where, rel):
                 e = inl_set.expand(e)
             if isinstance(e, (ast.Set, ast.List, ast.Tuple)):
                 return [("add", list(e.elts))]
+            if isinstance(e, ast.Call) and call_name(e) in ("set", "list", "tuple", "frozenset") and not e.keywords:
+                if not e.args:
+                    return [("add", [])]  # the empty collection
+                if len(e.args) == 1:
+                    return set_ops(e.args[0])
             if isinstance(e, ast.BinOp) and isinstance(e.op, (ast.BitOr, ast.Add, ast.Sub)):
                 lft, rgt = set_ops(e.left), set_ops(e.right)
                 if lft is None or rgt is None or len(rgt) != 1 or rgt[0][0] != "add":
